@@ -260,7 +260,51 @@ func ruleDupSilent(r *Report) {
 			}
 		}
 	}
-	r.Min(rule, 2)
+	// PutMany: a duplicate must not end the batch — success is returned only when the loop is exhausted
+	if fn := r.need(rule, "R", "(*HashedBlockstore).PutMany"); fn != nil {
+		done := condEdges(fn, func(cond ssa.Value) (bool, bool) {
+			bo, ok := cond.(*ssa.BinOp)
+			if !ok || bo.Op != token.LSS {
+				return false, false
+			}
+			c, isLen := bo.Y.(*ssa.Call)
+			if !isLen || cname(c) != "builtin.len" {
+				return false, false
+			}
+			if _, isP := c.Call.Args[0].(*ssa.Parameter); !isP {
+				return false, false
+			}
+			return false, true
+		})
+		if len(done) == 0 {
+			eachInstr(fn, func(in ssa.Instruction) {
+				// range over the slice compiled with Next/ok
+				if ex, ok := in.(*ssa.Extract); ok && ex.Index == 0 {
+					if _, isNext := ex.Tuple.(*ssa.Next); isNext {
+						done = append(done, condEdges(fn, func(cond ssa.Value) (bool, bool) {
+							if cond == ssa.Value(ex) {
+								return false, true
+							}
+							return false, false
+						})...)
+					}
+				}
+			})
+		}
+		succ, _ := classifyReturns(fn)
+		for _, ret := range succ {
+			if !isNilConst(retVal(ret, 0)) {
+				continue
+			}
+			ok, path := guarded(fn, ret, mkEdgeSet(done), nil)
+			if ok && len(done) > 0 {
+				r.Ok(rule, "PutMany/success-only-after-all-blocks", ret.Pos(), "PutMany reports success only when the loop over the batch is exhausted")
+			} else {
+				r.BadPath(rule, "PutMany/success-only-after-all-blocks", ret.Pos(), "PutMany can return success from inside the loop (e.g. on a duplicate): the blocks after that point in the batch are silently not stored", path)
+			}
+		}
+	}
+	r.Min(rule, 3)
 }
 
 func ruleGetSize(r *Report) {
@@ -378,6 +422,9 @@ func init() {
 		ruleDupSilent(r)
 		ruleGetSize(r)
 		ruleHashOnRead(r)
+		// clauses inherited from the store (Has/GetSize agree with Get; Put then Get round-trips)
+		ruleKeyCheck(r)
+		rulePredict(r)
 	},
 		"Decides the shape of the thin blockstore adapter (structural necessary conditions of its contract, not round-trip equality of bytes): every store call in a context-taking method is dominated by the ctx.Err()==nil edge and the other edge returns ctx.Err(); the key handed to the store is cid.Hash() of the requested CID/block and the value the block's RawData; a miss returns ipld.ErrNotFound carrying the requested CID and data is returned only on the found edge, Has returns the store's answer unchanged; the store's Put error reaches a return only on the not-ErrKeyExists edge (Put and PutMany agree); Store.GetSize = indexed size − len(key); HashOnRead stores its argument, re-hashing happens only when enabled and then only a verified block is returned, else ErrWrongHash. Not covered: byte equality and sizes (inherited from C01).")
 }
